@@ -300,22 +300,25 @@ func (r *Run) checkPanics() {
 }
 
 func normalizePanic(v string) string {
-	// strip addresses and numbers that vary between runs
+	// strip addresses and numbers that vary between inputs and runs: 0x... -> 0x?, digit runs -> #
 	var b strings.Builder
-	inHex := false
 	for i := 0; i < len(v); i++ {
 		c := v[i]
 		if c == '0' && i+1 < len(v) && v[i+1] == 'x' {
-			inHex = true
 			b.WriteString("0x?")
-			i++
+			i += 2
+			for i < len(v) && ((v[i] >= '0' && v[i] <= '9') || (v[i] >= 'a' && v[i] <= 'f')) {
+				i++
+			}
+			i--
 			continue
 		}
-		if inHex {
-			if (c >= '0' && c <= '9') || (c >= 'a' && c <= 'f') {
-				continue
+		if c >= '0' && c <= '9' {
+			b.WriteByte('#')
+			for i+1 < len(v) && v[i+1] >= '0' && v[i+1] <= '9' {
+				i++
 			}
-			inHex = false
+			continue
 		}
 		b.WriteByte(c)
 	}
